@@ -121,6 +121,21 @@ fn c06_exp_step() {
     if !(i == 0 && (rng.w[1] >> 11) == 0) { kani::assert(x.is_finite(), "Exp1 step returns an infinite value"); }
 }
 
+/// Exp1 tail branch (layer 0, u beyond the base strip; first word fixed) for every following word: the value is
+/// >= R, not NaN, and exactly ONE further word is drawn for it (the tail is R + Exp(1) of a FRESH uniform).
+#[kani::proof]
+#[kani::unwind(1)]
+#[kani::stub(f64::exp, lc::exp)]
+#[kani::stub(f64::ln, lc::log)]
+fn c06_exp_tail() {
+    let t: [u64; 2] = kani::any();
+    let mut rng = WordsRng::<3>::of([0xffff_ffff_ffff_f000u64, t[0], t[1]]);
+    let x: f64 = rd::Exp1.sample(&mut rng);
+    kani::cover!(x >= ZIG_EXP_R, "tail returns");
+    kani::assert(!x.is_nan() && x >= ZIG_EXP_R, "exponential tail value is >= R");
+    kani::assert(rng.i == 2, "the tail draws exactly one fresh uniform");
+}
+
 /// KNOWN FINDING: Exp1 returns +inf when the tail branch draws a uniform of exactly 0:  R - ln(0)
 #[kani::proof]
 #[kani::unwind(1)]
